@@ -344,6 +344,11 @@ char *qstrncpy(char *dst, size_t size, const char *src, size_t nbytes) {
 
     if (nbytes >= size)
         nbytes = size - 1;
+    // never read beyond the end of the source string.
+    size_t len;
+    for (len = 0; len < nbytes && src[len] != '\0'; len++)
+        ;
+    nbytes = len;
     memmove((void *) dst, (void *) src, nbytes);
     dst[nbytes] = '\0';
 
